@@ -66,6 +66,21 @@ PROPS["C02"] = doc_prop(
     nontrivial_key="kept_and_dropped",
     design=dict(quick=[bfs("MC_Convert", "Convert_q")], thorough=[bfs("MC_Convert", "Convert_t", timeout=3000)]))
 
+# C07 and C02: the rendering stage (spec/Render.tla): design-level theorems for every document x every flag assignment,
+# a defect toggle that must fail, and the fidelity replay of the real distilled HTML (spec/trace/RenderTrace.tla)
+def _render_stages():
+    design = dict(name="render-design",
+                  gen=dict(runs=dict(quick=[bfs("MC_Render", "Render_q"), bfs("MC_Render", "Render_defect", expect_violation=True)],
+                                     thorough=[bfs("MC_Render", "Render_t", timeout=3000, workers=8),
+                                               bfs("MC_Render", "Render_defect", expect_violation=True)])))
+    fid = dict(name="render-fidelity", handler="REND",
+               gen=dict(runs=dict(quick=[bfs("MC_C07", "C07_quick"), bfs("MC_C02", "C02_flat")],
+                                  thorough=[bfs("MC_C07", "C07_thorough"), bfs("MC_C02", "C02_flat"), bfs("MC_C02", "C02_quick")])),
+               sample=dict(quick=1500, thorough=30000),
+               trace=dict(module="RenderTrace", cfg="RenderTrace"))
+    return [design, fid]
+
+
 # C02 also replays the builder calls of the real converter against Convert.tla (fidelity: DRIFT only)
 PROPS["C02"]["stages"].append(dict(
     name="convert-fidelity", handler="CONV",
@@ -185,6 +200,9 @@ for _f in sorted(_glob.glob(_os.path.join(_os.path.dirname(_os.path.abspath(__fi
 # two-pass threshold (the pages of C20), judged by C09_WordCountMatchesText in CallsTrace
 PROPS["C09"]["stages"].append(_c09_wordcount_stage())
 
+
+PROPS["C07"]["stages"] += _render_stages()
+PROPS["C02"]["stages"] += _render_stages()[1:]
 
 # C01, crash stages: the inputs of every other family are also totality tests. Without these stages a panic on,
 # say, a generated table would only be logged by C18 as "crashed, judged by C01" while C01 never sees that input.
